@@ -2,6 +2,9 @@ SPECIFICATION TSpec
 CONSTANTS
   MaxServices = 100
   Outcomes = {"nil", "err", "panic"}
+  PlainKinds = {"nil", "err", "panic"}
+  FullUpTo = 100
+  PanicKinds = {"panic", "panicerr", "panicdl", "panicnil"}
   OtherSigs = {}
   ShutSigs = {"INT", "QUIT", "TERM"}
   MaxPre = 0
